@@ -272,7 +272,9 @@ def run(prog: Program, L: Ledger) -> None:
             "context.rng.standard_normal(size=(len(context.atoms), 3))": ("G", {"real": True}),
             "atoms.get_kinetic_energy()": ("Ekin", {"positive": True}), "atoms.get_number_of_degrees_of_freedom()": ("ndof", {"positive": True}),
             "context.atoms.get_kinetic_energy()": ("Ekin", {"positive": True}), "context.atoms.get_number_of_degrees_of_freedom()": ("ndof", {"positive": True}),
-            "len(atoms) * 3": ("ndof", {"positive": True}), "3 * len(atoms)": ("ndof", {"positive": True}),
+            # 3N is NOT the number of degrees of freedom once constraints remove some: its own symbol
+            "len(atoms) * 3": ("N3", {"positive": True}), "3 * len(atoms)": ("N3", {"positive": True}),
+            "len(context.atoms) * 3": ("N3", {"positive": True}), "3 * len(context.atoms)": ("N3", {"positive": True}),
         })
         vocab.bind("forced", sp.true if forced else sp.false)
         st = AtomsState(sp.Symbol("x"), sp.Symbol("p0"))
@@ -281,6 +283,19 @@ def run(prog: Program, L: Ledger) -> None:
         t.hooks.append(st.hook)
         Gs = vocab.sym("G", real=True)
         msym = vocab.sym("m", positive=True)
+
+        def size_hook(tr, node, _G=Gs):
+            # `<the (N, 3) draw or anything proportional to it>.size` is 3N
+            if isinstance(node, ast.Attribute) and node.attr == "size":
+                try:
+                    inner = sp.sympify(tr.tr(node.value))
+                except Exception:
+                    return None
+                if isinstance(inner, sp.Basic) and inner.has(_G):
+                    return vocab.sym("N3", positive=True)
+            return None
+
+        t.hooks.append(size_hook)
 
         def ke_hook(tr, node, _G=Gs, _m=msym):
             # a hand-written kinetic energy: np.sum(p*p/m) (the caller supplies the 1/2) of a momentum expression p
